@@ -147,7 +147,7 @@ where
 {
     arena::reset();
     arena::set_ctx("setup");
-    let pc = PedersenGens::<SymA<C>>::default();
+    let pc = pc_for::<SymA<C>>(&shape.name, seed);
     let bp_p = BulletproofGens::<SymA<C>>::new(cap_p, 1);
     let bp_v = BulletproofGens::<SymA<C>>::new(cap_v, 1);
     let bases = name_bases(&pc, if cap_p >= cap_v { &bp_p } else { &bp_v }, cap_p.max(cap_v));
@@ -327,7 +327,7 @@ where
 }
 
 fn replay_plain_inner<G: AffineRepr + 'static>(shape: &Shape, err: &ErrPlan, seed: u64, cap_p: usize, cap_v: usize, model: std::collections::HashMap<String, String>) -> (bool, bool, usize) {
-    let pc = PedersenGens::<G>::default();
+    let pc = pc_for::<G>(&shape.name, seed);
     let bp_p = BulletproofGens::<G>::new(cap_p, 1);
     let bp_v = BulletproofGens::<G>::new(cap_v, 1);
     let vals = PlainVals::<FOf<G>>::new(model, seed);
